@@ -18,7 +18,12 @@ import (
 )
 
 // pkgSpec is what a file yields when extracted.
-type pkgSpec struct{ name, version string }
+type pkgSpec struct {
+	name, version string
+	// further locations, reported before the file's own path and not in sorted order (extractors
+	// that follow includes report several locations for one package)
+	moreLocs []string
+}
 
 // content maps a file path to the packages the extractors report for it.
 type content map[string][]pkgSpec
@@ -28,7 +33,8 @@ func extractorFor(name string, c content) *fake.Extractor {
 	e.OnExtract = func(_ context.Context, in *filesystem.ScanInput) (inventory.Inventory, error) {
 		var inv inventory.Inventory
 		for _, s := range c[in.Path] {
-			inv.Packages = append(inv.Packages, &extractor.Package{Name: s.name, Version: s.version, Locations: []string{in.Path}})
+			locs := append(append([]string{}, s.moreLocs...), in.Path)
+			inv.Packages = append(inv.Packages, &extractor.Package{Name: s.name, Version: s.version, Locations: locs})
 		}
 		return inv, nil
 	}
@@ -89,6 +95,11 @@ func assertSorted(r *scalibr.ScanResult) {
 	for i := 0; i+1 < len(rs); i++ {
 		verifrt.Assert(lessEq(rs[i], rs[i+1]), "packages are emitted sorted by (name, version, extractor, locations)")
 	}
+	for _, p := range r.Inventory.Packages {
+		for i := 0; i+1 < len(p.Locations); i++ {
+			verifrt.Assert(p.Locations[i] <= p.Locations[i+1], "the locations of a package are emitted sorted")
+		}
+	}
 	for i := 0; i+1 < len(r.PluginStatus); i++ {
 		verifrt.Assert(r.PluginStatus[i].Name <= r.PluginStatus[i+1].Name, "plugin statuses are emitted sorted by name")
 	}
@@ -116,10 +127,10 @@ func VerifOrder() {
 	verifrt.Assume(verifrt.And(nb >= 0x20, nb < 0x7f))
 	verifrt.Assume(verifrt.And(vb >= 0x20, vb < 0x7f))
 	c := content{
-		"a.pkg":   {{"b", "1.0"}},
-		"d/b.pkg": {{"b" + string([]byte{nb}), "1.0" + string([]byte{vb})}},
-		"d/c.pkg": {{"b", "1.0"}, {"a", "9"}},
-		"z.pkg":   {{"b", "1.0" + string([]byte{vb})}, {"b0", "1.0"}},
+		"a.pkg":   {{name: "b", version: "1.0"}},
+		"d/b.pkg": {{name: "b" + string([]byte{nb}), version: "1.0" + string([]byte{vb})}},
+		"d/c.pkg": {{name: "b", version: "1.0", moreLocs: []string{"zz/inc", "0/inc"}}, {name: "a", version: "9"}},
+		"z.pkg":   {{name: "b", version: "1.0" + string([]byte{vb})}, {name: "b0", version: "1.0"}},
 	}
 	exs := func() []filesystem.Extractor {
 		return []filesystem.Extractor{extractorFor("y", c), extractorFor("x", c)}
@@ -154,7 +165,7 @@ func VerifRoots() {
 			f = "same.pkg" // the same relative path in every root
 		}
 		roots = append(roots, symfs.Dir(".", symfs.File(f, "x")))
-		c[f] = []pkgSpec{{fmt.Sprintf("pkg-%s", f), "1"}}
+		c[f] = []pkgSpec{{name: fmt.Sprintf("pkg-%s", f), version: "1"}}
 	}
 	mk := func() []filesystem.Extractor { return []filesystem.Extractor{extractorFor("x", c)} }
 	want := 0
@@ -173,7 +184,7 @@ func VerifRoots() {
 
 // VerifTwin must be violated.
 func VerifTwin() {
-	r := scan([]*symfs.Node{tree()}, []filesystem.Extractor{extractorFor("x", content{"a.pkg": {{"p", "1"}}})})
+	r := scan([]*symfs.Node{tree()}, []filesystem.Extractor{extractorFor("x", content{"a.pkg": {{name: "p", version: "1"}}})})
 	if len(r.Inventory.Packages) == 1 {
 		verifrt.Fail("twin")
 	}
